@@ -552,6 +552,20 @@ def _bunching(ctx: Ctx, m0: pf.Module) -> None:
         ctx.extra_cov['inlined_helpers'] = sorted({n for n, _ in inlined})
     fn = m.func(f'{CLS}._create_bunches')
     where = f'{F}::{CLS}._create_bunches'
+    # n_bytes is the length of the serialised spec
+    nb = m.func('SpecBytes.n_bytes')
+    r0 = [st for st in _stmts(nb) if isinstance(st, ast.Return)]
+    ctx.need(len(r0) == 1, f'{F}::SpecBytes.n_bytes: expected one return')
+    nbv = pf.expand_locals(nb, r0[0].value) if r0[0].value is not None else None
+    ctx.need(nbv is not None, f'{F}::SpecBytes.n_bytes: returns nothing')
+    try:
+        nbl = linform.lin(nbv)  # type: ignore[arg-type]
+    except AnalysisError as ex:
+        raise AnalysisError(f'{F}::SpecBytes.n_bytes: `{pf.nsrc(r0[0])}` not recognised ({ex})') from ex
+    nself = nb.args.args[0].arg if nb.args.args else 'self'
+    ctx.need(all(s_.startswith(f'len({nself}.') or s_.startswith(f'{nself}.') for s_ in nbl.symbols()) or nbl.is_const(), f'{F}::SpecBytes.n_bytes: `{pf.nsrc(r0[0])}` not recognised')
+    ctx.check(nbl == linform.sym(f'len({nself}.spec_bytes)'), 'R3', f'{F}::SpecBytes.n_bytes', f'`{pf.nsrc(r0[0])}` (= `{nbl!r}`) is not the length of the serialised spec', m.path, r0[0].lineno)
+
     g = pf.cfg(fn)
     params = [a.arg for a in fn.args.args]
     ctx.need(len(params) == 5, f'{where}: parameters changed: {params}')
@@ -1117,20 +1131,6 @@ def _bunching(ctx: Ctx, m0: pf.Module) -> None:
     report('R3', 'append guarded by both limits', lim_bad, {'counter': counter})
     report('R3', 'byte count is an upper bound of the bunch bytes', acct_bad if counter is not None else ['no byte counter identified'] if not lim_bad else [])
     report('R3', 'fresh bunch respects the byte limit', fresh_bad)
-    # n_bytes is the length of the serialised spec
-    nb = m.func('SpecBytes.n_bytes')
-    r0 = [st for st in _stmts(nb) if isinstance(st, ast.Return)]
-    ctx.need(len(r0) == 1, f'{F}::SpecBytes.n_bytes: expected one return')
-    nbv = pf.expand_locals(nb, r0[0].value) if r0[0].value is not None else None
-    ctx.need(nbv is not None, f'{F}::SpecBytes.n_bytes: returns nothing')
-    try:
-        nbl = linform.lin(nbv)  # type: ignore[arg-type]
-    except AnalysisError as ex:
-        raise AnalysisError(f'{F}::SpecBytes.n_bytes: `{pf.nsrc(r0[0])}` not recognised ({ex})') from ex
-    nself = nb.args.args[0].arg if nb.args.args else 'self'
-    ctx.need(all(s_.startswith(f'len({nself}.') or s_.startswith(f'{nself}.') for s_ in nbl.symbols()) or nbl.is_const(), f'{F}::SpecBytes.n_bytes: `{pf.nsrc(r0[0])}` not recognised')
-    ctx.check(nbl == linform.sym(f'len({nself}.spec_bytes)'), 'R3', f'{F}::SpecBytes.n_bytes', f'`{pf.nsrc(r0[0])}` (= `{nbl!r}`) is not the length of the serialised spec', m.path, r0[0].lineno)
-
     # ---- before and after the loop
     inits_bad: List[str] = []
     for nm in (bunch, result):
